@@ -443,7 +443,9 @@ func c11FrontScenario(x *mc.X) *mc.Outcome {
 	zh.Reset()
 	zh.Install(x, zh.PoolLIFO, zh.OrderSorted)
 	defer func() { conf.IssueFormatter = conf.DefaultIssueFormatter }()
-	which := x.Choose(5, "case")
+	which := x.Choose(6, "case")
+	ptrRoot := which != 3 && which != 4 && x.Bool("top-level schema is Ptr(Struct)")
+	optional := false // case 5: the front end may report nothing (malformed pairs are dropped); whatever it reports must be complete
 	e := &c11Entry{noOpts: which != 3 && which != 4}
 	cfg := c11ChooseConfig(x, e)
 	cfg.install()
@@ -453,20 +455,32 @@ func c11FrontScenario(x *mc.X) *mc.Outcome {
 	var m z.ZogIssueMap
 	var l z.ZogIssueList
 	var name, code, dtype string
+	parse := func(data any) z.ZogIssueMap {
+		if ptrRoot {
+			var dp *D
+			return z.Ptr(s).Parse(data, &dp, cfg.execOpts()...)
+		}
+		return s.Parse(data, &d, cfg.execOpts()...)
+	}
 	switch which {
 	case 0:
 		name, code, dtype = "zjson.Decode(malformed)", "invalid_json", "struct"
-		m = s.Parse(zjson.Decode(strings.NewReader(`{"a":`)), &d, cfg.execOpts()...)
+		m = parse(zjson.Decode(strings.NewReader(`{"a":`)))
 	case 1:
 		name, code, dtype = "zhttp JSON body null", "invalid_json", "struct"
 		r := httptest.NewRequest(http.MethodPost, "/", strings.NewReader(`null`))
 		r.Header.Set("Content-Type", "application/json")
-		m = s.Parse(zhttp.Request(r), &d, cfg.execOpts()...)
+		m = parse(zhttp.Request(r))
 	case 2:
 		name, code, dtype = "zhttp malformed form", "invalid_form", "struct"
 		r := httptest.NewRequest(http.MethodPost, "/", strings.NewReader(`a=%zz`))
 		r.Header.Set("Content-Type", "application/x-www-form-urlencoded")
-		m = s.Parse(zhttp.Request(r), &d, cfg.execOpts()...)
+		m = parse(zhttp.Request(r))
+	case 5:
+		name, code, dtype, optional = "zhttp malformed query", "", "struct", true
+		r := httptest.NewRequest(http.MethodGet, "/", nil)
+		r.URL.RawQuery = []string{"a=%zz", "a=1;b=2", "%"}[x.Choose(3, "query")]
+		m = parse(zhttp.Request(r))
 	case 3:
 		name, code, dtype = "CustomFunc[int] failing (IssueCode given)", "neg", "custom"
 		var v int
@@ -489,6 +503,13 @@ func c11FrontScenario(x *mc.X) *mc.Outcome {
 	desc := fmt.Sprintf("%s %s", name, cfg)
 	out.Sig = desc
 	out.Sample = map[string]any{"case": desc, "issues": fmt.Sprint(all)}
+	if ptrRoot {
+		desc += " into Ptr(Struct)"
+	}
+	if optional && len(all) == 0 {
+		out.Sig = desc + " (nothing reported)"
+		return out
+	}
 	if len(all) != 1 {
 		x.Note("case: %s", desc)
 		out.Viol = append(out.Viol, &mc.Violation{Key: "C11:count:" + name, What: "expected exactly one issue", Expected: "1", Observed: fmt.Sprint(all)})
@@ -516,7 +537,7 @@ func init() {
 		Rule:  "the finite catalogue, completely: one execution = one (built-in test or required/not_nil/coerce of a schema type | front-end decode issue | Custom schema issue) × mode × placement {top, field, element} × test-level {none, Message, MessageFunc} × execution-level {none, WithIssueFormatter} × global {default formatter, i18n × default language {en,es} × context language {unset,en,es,unknown} × lang key {default, custom}} × pre-history {none, a caught issue with a custom message released, coerce+test issues collected}; every case is non-trivial (exactly one issue is produced and inspected); distinct = distinct configurations",
 		Floor: 100,
 		Bound: func(tier string) string {
-			return fmt.Sprintf("%d catalogue entries + 5 front-end/custom cases, full product of all configuration dimensions", len(c11Catalogue()))
+			return fmt.Sprintf("%d catalogue entries + 6 front-end/custom cases (front-end cases into Struct and into a top-level Ptr(Struct)), full product of all configuration dimensions", len(c11Catalogue()))
 		},
 		Assumptions: []string{
 			"expected language: the context language if it is one of the shipped maps (en, es), else the default language; expected text is rendered from the shipped language map by the harness's own substitution",
